@@ -382,8 +382,46 @@ class Analysis:
                     new.locals[(fr.id, el.id)] = SOME if not isinstance(tg, ast.Tuple) else TOP
         return new
 
+    def _bool_def(self, n, st):
+        """`flag = <boolean expression>` (comparison / and / or / not): the definition is a case split -- the local is True on the states in
+        which the expression can be true (refined by it, ghosts included) and False on those in which it can be false -- so that a later
+        `if flag:` is decided exactly like `if <expression>:` would have been at the point of definition"""
+        a = n.ast
+        if n.kind != 'stmt' or not isinstance(a, ast.Assign) or len(a.targets) != 1 or not isinstance(a.targets[0], ast.Name):
+            return None
+        v = a.value
+        if not (isinstance(v, (ast.Compare, ast.BoolOp)) or (isinstance(v, ast.UnaryOp) and isinstance(v.op, ast.Not))):
+            return None
+        outs = []
+        for truth, val in ((True, TRUE), (False, FALSE)):
+            for s2 in self._refine_formula(v, truth, st, n.frame):
+                s2 = s2.copy()
+                s2.locals[(n.frame.id, a.targets[0].id)] = val
+                outs.append(s2)
+        return outs or None
+
+    def _refine_formula(self, t, truth, st, frame):
+        """states refined by `t` having the given truth value; and / or / not are decomposed like the builder decomposes conditions"""
+        if isinstance(t, ast.UnaryOp) and isinstance(t.op, ast.Not):
+            return self._refine_formula(t.operand, not truth, st, frame)
+        if isinstance(t, ast.BoolOp):
+            conj = isinstance(t.op, ast.And) == truth       # all operands have the value `truth`
+            if conj:
+                cur = [st]
+                for v in t.values:
+                    cur = [s3 for s2 in cur for s3 in self._refine_formula(v, truth, s2, frame)]
+                return cur
+            out, prefix = [], [st]
+            for v in t.values:                              # first operand with the value `truth`, the earlier ones having the opposite
+                out += [s3 for s2 in prefix for s3 in self._refine_formula(v, truth, s2, frame)]
+                prefix = [s3 for s2 in prefix for s3 in self._refine_formula(v, not truth, s2, frame)]
+            return out
+        r = self.refine(t, truth, st, frame)
+        return [r] if r is not None else []
+
     def transfer_multi(self, n, st):
-        outs = [self.transfer(n, st)]
+        split = self._bool_def(n, st)
+        outs = split if split is not None else [self.transfer(n, st)]
         for h in self.node_hooks:
             nxt = []
             for o in outs:
